@@ -18,7 +18,7 @@ ASSUMPTIONS = ["header values are ASCII (strings.TrimSpace also trims non-ASCII 
 def nontrivial(c):
     if c.kind == "clientip":
         return c.fields[0] == "-" or "2c" in c.fields[0]
-    if c.kind == "download":
+    if c.kind in ("download", "exact"):
         return True
     if c.kind == "addrbind":
         return c.fields[2] != c.fields[3]
